@@ -1,0 +1,167 @@
+//go:build verif
+
+// Verification hook (build tag "verif"): turns the process into a job server
+// when VERIF_SERVE is set. Without the tag this file is not compiled; with the
+// tag but without VERIF_SERVE it does nothing.
+
+package main
+
+import (
+	"bufio"
+	"encoding/json"
+	"fmt"
+	"io"
+	"os"
+	"runtime/debug"
+
+	"github.com/urfave/cli/v2"
+)
+
+type verifJob struct {
+	Fault *verifFaultJob    `json:"fault,omitempty"`
+	Args  []string          `json:"args"`
+	Env   map[string]string `json:"env,omitempty"`
+	Cwd   string            `json:"cwd,omitempty"`
+	Reps  int               `json:"reps,omitempty"`
+}
+
+type verifRun struct {
+	Out   string `json:"out"`
+	Serr  string `json:"serr,omitempty"`
+	Err   string `json:"err,omitempty"`
+	Exit  int    `json:"exit"`
+	Panic string `json:"panic,omitempty"`
+	Count int    `json:"count"`
+}
+
+type verifRes struct {
+	Runs  []verifRun     `json:"runs,omitempty"`
+	Fault *verifFaultRes `json:"fault,omitempty"`
+	Bad   string         `json:"bad,omitempty"`
+}
+
+type verifExit struct{ code int }
+
+func verifDrain(r *os.File) chan []byte {
+	done := make(chan []byte, 1)
+	go func() { b, _ := io.ReadAll(r); done <- b }()
+	return done
+}
+
+// verifRunApp runs the production app once with stdout/stderr captured
+func verifRunApp(args []string) (run verifRun) {
+	realOut, realErr, realErrWriter := os.Stdout, os.Stderr, cli.ErrWriter
+	ro, wo, err := os.Pipe()
+	if err != nil {
+		run.Panic = "verif: pipe: " + err.Error()
+		return
+	}
+	re, we, err := os.Pipe()
+	if err != nil {
+		run.Panic = "verif: pipe: " + err.Error()
+		return
+	}
+	os.Stdout, os.Stderr, cli.ErrWriter = wo, we, we
+	outDone, errDone := verifDrain(ro), verifDrain(re)
+	var runErr error
+	func() {
+		defer func() {
+			if p := recover(); p != nil {
+				if ep, ok := p.(verifExit); ok {
+					run.Exit = ep.code
+					return
+				}
+				run.Panic = fmt.Sprintf("%v\n%s", p, debug.Stack())
+			}
+		}()
+		runErr = GetApp().Run(args)
+	}()
+	os.Stdout, os.Stderr, cli.ErrWriter = realOut, realErr, realErrWriter
+	wo.Close()
+	we.Close()
+	run.Out = string(<-outDone)
+	run.Serr = string(<-errDone)
+	ro.Close()
+	re.Close()
+	if runErr != nil {
+		run.Err = runErr.Error()
+		if run.Exit == 0 {
+			// main() does log.Fatal(err)
+			run.Exit = 1
+		}
+	}
+	run.Count = 1
+	return
+}
+
+func verifServe() {
+	cli.OsExiter = func(code int) { panic(verifExit{code}) }
+	in := bufio.NewReaderSize(os.Stdin, 1<<20)
+	out := bufio.NewWriter(os.Stdout)
+	home, _ := os.Getwd()
+	for {
+		line, err := in.ReadBytes('\n')
+		if len(line) > 0 {
+			var j verifJob
+			var rs verifRes
+			if jerr := json.Unmarshal(line, &j); jerr != nil {
+				rs.Bad = jerr.Error()
+			} else {
+				for k, v := range j.Env {
+					os.Setenv(k, v)
+				}
+				if j.Cwd != "" {
+					if cerr := os.Chdir(j.Cwd); cerr != nil {
+						rs.Bad = cerr.Error()
+					}
+				}
+				if rs.Bad == "" {
+					if j.Fault != nil {
+						fr := verifRunFault(*j.Fault)
+						rs.Fault = &fr
+					} else {
+						if j.Reps < 1 {
+							j.Reps = 1
+						}
+						for i := 0; i < j.Reps; i++ {
+							run := verifRunApp(append([]string{"hranoprovod-cli"}, j.Args...))
+							merged := false
+							for k := range rs.Runs {
+								o := &rs.Runs[k]
+								if o.Out == run.Out && o.Serr == run.Serr && o.Err == run.Err && o.Exit == run.Exit && o.Panic == run.Panic {
+									o.Count++
+									merged = true
+									break
+								}
+							}
+							if !merged {
+								rs.Runs = append(rs.Runs, run)
+							}
+						}
+					}
+				}
+				for k := range j.Env {
+					os.Unsetenv(k)
+				}
+				if j.Cwd != "" {
+					os.Chdir(home)
+				}
+			}
+			b, _ := json.Marshal(rs)
+			out.Write(b)
+			out.WriteByte('\n')
+			out.Flush()
+		}
+		if err != nil {
+			return
+		}
+	}
+}
+
+func init() {
+	if os.Getenv("VERIF_SERVE") == "" {
+		return
+	}
+	verifServe()
+	os.Exit(0)
+}
